@@ -70,6 +70,8 @@ class Scheduler:
         self.hang_timeout = 60.0      # wall-clock seconds without the execution ending: the running thread makes no progress
         self.hung_thread = None
         self.max_steps = 200000
+        self.fail_starts = ()         # 1-based indices of Thread.start() calls (library threads included) that fail with RuntimeError
+        self.n_starts = 0
 
     # ---------------------------------------------------------------- install / uninstall
     def install(self):
@@ -354,6 +356,10 @@ def _patched_start(thread):
     s = Scheduler.current
     if s is None or s.aborting:
         return _orig_start(thread)
+    if s.fail_starts:
+        s.n_starts += 1
+        if s.n_starts in s.fail_starts:
+            raise RuntimeError("can't start new thread")      # environment fault: the system refuses another thread
     st = s.register(thread, getattr(thread, "_vf_role", None))
     thread.run = s._bootstrap(st, thread.run)
     _orig_start(thread)
